@@ -68,6 +68,9 @@ type c20In struct {
 	Vars map[string]any `json:"vars,omitempty"`
 	Qs   []c20Query     `json:"qs"`
 	SQL  []string       `json:"sql,omitempty"` // informational
+	// Consts: the queries are also given constants (WithConstants) named like the variable keys, with other values,
+	// and callbacks: variables and constants are separate name spaces, a key never set still reads NULL
+	Consts bool `json:"consts,omitempty"`
 }
 
 func call(name string, args ...*Expr) *Expr { return &Expr{K: "call", Name: name, Items: args} }
@@ -217,6 +220,16 @@ func (propC20) Observe(raw json.RawMessage) (Observed, error) {
 			opts = append(opts, genql.WithVars(vars))
 		case "nil":
 			opts = append(opts, genql.WithVars(nil))
+		}
+		if in.Consts {
+			cm := map[string]any{"lim": float64(-5), "": "empty"}
+			for _, k := range c20Keys {
+				cm[k] = "constant-of-" + k
+			}
+			for k := range in.Vars {
+				cm[k] = float64(0.25)
+			}
+			opts = append(opts, genql.WithConstants(cm), genql.UnReportedErrors(func(error) {}), genql.CompletedCallback(func() {}))
 		}
 		out := runEngine(doc, sql, opts...)
 		snap := deepCopy(anyMapOrNil(vars))
@@ -605,6 +618,10 @@ func genC20(r *Rand, tier string) []Case {
 			ts = append(ts, t)
 		}
 		sortStrings(ts)
+		if in.Mode == "map" && len(out)%4 == 3 {
+			in.Consts = true
+			ts = append(ts, "options:constants-named-like-keys")
+		}
 		out = append(out, Case{Input: in, Tags: ts, Nontrivial: nontrivial})
 	}
 	// (1) systematic sweep: one key, SETVAR at every position of lists of every length, every row count
